@@ -262,7 +262,15 @@ def collect(ck: Check, n_cases: int, modes, fixed=()):
     crashed = [r for r in out if "crash" in r]
     if crashed:
         ck.broke("impl-runner-crash", {"prog": crashed[0]["prog"], "crash": crashed[0]["crash"]})
-    return [r for r in out if "crash" not in r]
+    hung = [r for r in out if r.get("hang")]
+    if hung:
+        small = min(hung, key=lambda r: len(json.dumps(r["prog"])))
+        ck.fail_input(f"{ck.pid}:hang", "the startup could not be brought to an end: start_component neither returned nor "
+                      "raised and its components could not be cancelled (real-time watchdog of the harness, "
+                      f"{len(hung)} program(s))",
+                      {"backend": small["backend"], "prog": small["prog"], "choices": small["choices"],
+                       "timeout": small["timeout"], "hang": True})
+    return [r for r in out if "crash" not in r and not r.get("hang")]
 
 
 # ------------------------------------------------------------------ oracles
@@ -604,6 +612,12 @@ def replay_generic(ck: Check, obj, oracle) -> int:
     r = ck.run_impl("impl_start.py", [{"cases": [{"prog": rp["prog"], "timeout": rp["timeout"],
                                                    "choices": rp["choices"], "backend": rp["backend"]}]}])[0]
     rr = r["results"][0]
+    if rr.get("hang"):
+        print("ORACLE: hang - the startup could not be brought to an end (real-time watchdog of the harness)")
+        return 1
+    if "crash" in rr:
+        print(rr["crash"])
+        return 1
     for s in rr.get("steps", []):
         print(s)
     print("outcome:", rr.get("outcome"), "table:", rr.get("table"), "teardown:", rr.get("teardown"))
